@@ -1640,28 +1640,10 @@ func (c *Ctx) ruleIDSeparator(rule string) {
 // the others accept.
 func (c *Ctx) ruleRulesEverywhere(rule string) {
 	r := c.R
-	r.Rule(rule, "every function of the library that makes a JSight schema object from the text of a directive body (jschema.New with a content that is not a constant) hands ALL the rules of the project to THAT object before it leaves the function: every path from the construction to a return without error passes a range loop over a map of schema rules (or a call of a library helper that contains one) whose every round calls AddRule(key, value) on the object made - or on the wrapper made around it: Path, Query, Headers, bodies and user types all know the ENUM directives of the project", 3)
+	r.Rule(rule, "every function of the library that makes a JSight schema object from the text of a directive body (jschema.New with a content that is not a constant) hands ALL the rules of the project to THAT object before it is used: every path from the construction to a return without error passes a range loop over a map of schema rules (or a call of a library helper that contains one) whose every round calls AddRule(key, value) on the object made - or on the wrapper made around it; a function that only makes the object and returns it hands the obligation to each of its call sites (two levels): Path, Query, Headers, bodies and user types all know the ENUM directives of the project", 3)
 	n := 0
 	for _, f := range c.libFns() {
 		pk := f.Pkg
-		// the bodies of the function and of its function literals, innermost first
-		var bodies []*ast.BlockStmt
-		ast.Inspect(f.Decl.Body, func(nd ast.Node) bool {
-			if lit, ok := nd.(*ast.FuncLit); ok {
-				bodies = append(bodies, lit.Body)
-			}
-			return true
-		})
-		bodies = append(bodies, f.Decl.Body)
-		innermost := func(nd ast.Node) *ast.BlockStmt {
-			var best *ast.BlockStmt
-			for _, b := range bodies {
-				if b.Pos() <= nd.Pos() && nd.End() <= b.End() && (best == nil || b.End()-b.Pos() < best.End()-best.Pos()) {
-					best = b
-				}
-			}
-			return best
-		}
 		var news []*ast.CallExpr
 		ast.Inspect(f.Decl.Body, func(nd ast.Node) bool {
 			call, ok := nd.(*ast.CallExpr)
@@ -1681,130 +1663,233 @@ func (c *Ctx) ruleRulesEverywhere(rule string) {
 		for _, mk := range news {
 			n++
 			key := f.Name() + " | " + exprString(mk.Fun)
-			body := innermost(mk)
-			fc := buildCFG(body)
-			// the variables that hold the object made, or something made around it
-			holders := map[types.Object]bool{}
-			for round := 0; round < 3; round++ {
-				ast.Inspect(body, func(nd ast.Node) bool {
-					as, ok := nd.(*ast.AssignStmt)
-					if !ok || len(as.Lhs) != len(as.Rhs) {
-						return true
-					}
-					for i, lhs := range as.Lhs {
-						id, ok := lhs.(*ast.Ident)
-						if !ok {
-							continue
-						}
-						obj := pk.TypesInfo.ObjectOf(id)
-						if obj == nil || holders[obj] {
-							continue
-						}
-						from := false
-						ast.Inspect(as.Rhs[i], func(m ast.Node) bool {
-							if m == ast.Node(mk) {
-								from = true
-							}
-							if rid, ok := m.(*ast.Ident); ok && holders[pk.TypesInfo.Uses[rid]] {
-								from = true
-							}
-							return !from
-						})
-						if from {
-							holders[obj] = true
-						}
-					}
-					return true
-				})
-			}
-			rootHolder := func(e ast.Expr) bool {
-				for {
-					switch x := ast.Unparen(e).(type) {
-					case *ast.SelectorExpr:
-						e = x.X
-						continue
-					case *ast.StarExpr:
-						e = x.X
-						continue
-					case *ast.Ident:
-						return holders[pk.TypesInfo.Uses[x]]
-					}
-					return false
-				}
-			}
-			// the nodes that give the object all the rules
-			var gives []ast.Node
-			ast.Inspect(body, func(nd ast.Node) bool {
-				switch x := nd.(type) {
-				case *ast.RangeStmt:
-					if innermost(x) != body || !isRuleMap(pk.TypesInfo.TypeOf(x.X)) {
-						return true
-					}
-					kid, _ := x.Key.(*ast.Ident)
-					vid, _ := x.Value.(*ast.Ident)
-					if kid == nil || vid == nil {
-						return true
-					}
-					ko, vo := pk.TypesInfo.ObjectOf(kid), pk.TypesInfo.ObjectOf(vid)
-					if fc.everyRoundPasses(x, func(m ast.Node) bool {
-						call, ok := m.(*ast.CallExpr)
-						if !ok || len(call.Args) != 2 {
-							return false
-						}
-						cal := callee(pk, call)
-						sel, isSel := ast.Unparen(call.Fun).(*ast.SelectorExpr)
-						if cal == nil || cal.Name() != "AddRule" || !isSel || !rootHolder(sel.X) {
-							return false
-						}
-						a0, _ := ast.Unparen(call.Args[0]).(*ast.Ident)
-						a1, _ := ast.Unparen(call.Args[1]).(*ast.Ident)
-						return a0 != nil && a1 != nil && pk.TypesInfo.Uses[a0] == ko && pk.TypesInfo.Uses[a1] == vo
-					}) {
-						gives = append(gives, emptinessGuardOf(pk, body, x))
-					}
-				case *ast.CallExpr:
-					if innermost(x) != body {
-						return true
-					}
-					if c.givesAllRules(pk, x, rootHolder) {
-						gives = append(gives, x)
-					}
-				}
-				return true
-			})
-			// every return without error that the construction reaches
-			var open []string
-			ast.Inspect(body, func(nd ast.Node) bool {
-				if _, isLit := nd.(*ast.FuncLit); isLit {
-					return false
-				}
-				ret, ok := nd.(*ast.ReturnStmt)
-				if !ok {
-					return true
-				}
-				if len(ret.Results) > 0 && !isNil(pk, ret.Results[len(ret.Results)-1]) {
-					if isErrorLike(pk.TypesInfo.TypeOf(ret.Results[len(ret.Results)-1])) {
-						return true // a failure: nothing leaves the function
-					}
-				}
-				if fc.reachesAvoiding(mk, ret, gives) {
-					open = append(open, c.pos(ret.Pos()))
-				}
-				return true
-			})
-			switch {
-			case len(gives) == 0:
-				r.Bad(rule, key, "a schema is made from the text of a body without the rules of the project: {enum: @name} in it is refused ('Enum is not found') although the ENUM is declared and the same schema is accepted under another directive", c.pos(mk.Pos()))
-			case len(open) > 0:
-				r.Bad(rule, key, "a schema made from the text of a body can leave the function without the rules of the project (return at "+strings.Join(open, ", ")+" is reached around the loop that adds them)", c.pos(mk.Pos()))
+			switch verdict, detail := c.rulesReachObject(f, mk, 0); verdict {
+			case 0:
+				r.Ok(rule, key, "every rule of the project is added to the schema on every path to a successful return"+detail, c.pos(mk.Pos()))
+			case 1:
+				r.Bad(rule, key, "a schema is made from the text of a body without the rules of the project: {enum: @name} in it is refused ('Enum is not found') although the ENUM is declared and the same schema is accepted under another directive"+detail, c.pos(mk.Pos()))
 			default:
-				r.Ok(rule, key, "every rule of the project is added to the schema on every path to a successful return", c.pos(mk.Pos()))
+				r.Bad(rule, key, "a schema made from the text of a body can leave the function without the rules of the project ("+detail+")", c.pos(mk.Pos()))
 			}
 		}
 	}
 	if n < 3 {
 		r.Undecided(rule, "sites", fmt.Sprintf("only %d constructions of a schema from a body found", n), "")
 	}
+}
+
+// rulesReachObject: does the object made by the call mk in f get all the rules of the project before f (or, when f
+// merely returns it, each caller of f) returns successfully? 0: yes; 1: no loop that gives them at all; 2: a
+// successful return is reached around it.
+func (c *Ctx) rulesReachObject(f *Fn, mk *ast.CallExpr, depth int) (int, string) {
+	pk := f.Pkg
+	// the bodies of the function and of its function literals
+	var bodies []*ast.BlockStmt
+	ast.Inspect(f.Decl.Body, func(nd ast.Node) bool {
+		if lit, ok := nd.(*ast.FuncLit); ok {
+			bodies = append(bodies, lit.Body)
+		}
+		return true
+	})
+	bodies = append(bodies, f.Decl.Body)
+	innermost := func(nd ast.Node) *ast.BlockStmt {
+		var best *ast.BlockStmt
+		for _, b := range bodies {
+			if b.Pos() <= nd.Pos() && nd.End() <= b.End() && (best == nil || b.End()-b.Pos() < best.End()-best.Pos()) {
+				best = b
+			}
+		}
+		return best
+	}
+	body := innermost(mk)
+	fc := buildCFG(body)
+	// the variables that hold the object made, or something made around it
+	holders := map[types.Object]bool{}
+	for round := 0; round < 3; round++ {
+		ast.Inspect(body, func(nd ast.Node) bool {
+			as, ok := nd.(*ast.AssignStmt)
+			if !ok {
+				return true
+			}
+			for i, lhs := range as.Lhs {
+				id, ok := lhs.(*ast.Ident)
+				if !ok {
+					continue
+				}
+				obj := pk.TypesInfo.ObjectOf(id)
+				if obj == nil || holders[obj] {
+					continue
+				}
+				var rhs ast.Expr
+				switch {
+				case len(as.Lhs) == len(as.Rhs):
+					rhs = as.Rhs[i]
+				case len(as.Rhs) == 1 && i == 0:
+					rhs = as.Rhs[0] // s, err := make(...)
+				default:
+					continue
+				}
+				from := false
+				ast.Inspect(rhs, func(m ast.Node) bool {
+					if m == ast.Node(mk) {
+						from = true
+					}
+					if rid, ok := m.(*ast.Ident); ok && holders[pk.TypesInfo.Uses[rid]] {
+						from = true
+					}
+					return !from
+				})
+				if from {
+					holders[obj] = true
+				}
+			}
+			return true
+		})
+	}
+	rootHolder := func(e ast.Expr) bool {
+		for {
+			switch x := ast.Unparen(e).(type) {
+			case *ast.SelectorExpr:
+				e = x.X
+				continue
+			case *ast.StarExpr:
+				e = x.X
+				continue
+			case *ast.Ident:
+				return holders[pk.TypesInfo.Uses[x]]
+			}
+			return false
+		}
+	}
+	// the nodes that give the object all the rules
+	var gives []ast.Node
+	ast.Inspect(body, func(nd ast.Node) bool {
+		switch x := nd.(type) {
+		case *ast.RangeStmt:
+			if innermost(x) != body || !isRuleMap(pk.TypesInfo.TypeOf(x.X)) {
+				return true
+			}
+			kid, _ := x.Key.(*ast.Ident)
+			vid, _ := x.Value.(*ast.Ident)
+			if kid == nil || vid == nil {
+				return true
+			}
+			ko, vo := pk.TypesInfo.ObjectOf(kid), pk.TypesInfo.ObjectOf(vid)
+			if fc.everyRoundPasses(x, func(m ast.Node) bool {
+				call, ok := m.(*ast.CallExpr)
+				if !ok || len(call.Args) != 2 {
+					return false
+				}
+				cal := callee(pk, call)
+				sel, isSel := ast.Unparen(call.Fun).(*ast.SelectorExpr)
+				if cal == nil || cal.Name() != "AddRule" || !isSel || !rootHolder(sel.X) {
+					return false
+				}
+				a0, _ := ast.Unparen(call.Args[0]).(*ast.Ident)
+				a1, _ := ast.Unparen(call.Args[1]).(*ast.Ident)
+				return a0 != nil && a1 != nil && pk.TypesInfo.Uses[a0] == ko && pk.TypesInfo.Uses[a1] == vo
+			}) {
+				gives = append(gives, emptinessGuardOf(pk, body, x))
+			}
+		case *ast.CallExpr:
+			if innermost(x) != body {
+				return true
+			}
+			if c.givesAllRules(pk, x, rootHolder) {
+				gives = append(gives, x)
+			}
+		}
+		return true
+	})
+	// every return without error that the construction reaches
+	var open []*ast.ReturnStmt
+	ast.Inspect(body, func(nd ast.Node) bool {
+		if _, isLit := nd.(*ast.FuncLit); isLit {
+			return false
+		}
+		ret, ok := nd.(*ast.ReturnStmt)
+		if !ok {
+			return true
+		}
+		if len(ret.Results) > 0 && !isNil(pk, ret.Results[len(ret.Results)-1]) {
+			if isErrorLike(pk.TypesInfo.TypeOf(ret.Results[len(ret.Results)-1])) {
+				return true // a failure: nothing leaves the function
+			}
+		}
+		if ret.Pos() > mk.Pos() && ret.End() < mk.End() {
+			return true
+		}
+		within := ret.Pos() <= mk.Pos() && mk.End() <= ret.End() // return jschema.New(...), nil
+		if within || fc.reachesAvoiding(mk, ret, gives) {
+			// a return on the side of a test that found no object (`if s == nil { return nil }`) lets nothing out
+			noObject := fc.establishedAt(ret, func(cond ast.Expr, trueEdge bool) bool {
+				be, ok := ast.Unparen(cond).(*ast.BinaryExpr)
+				if !ok || !isNil(pk, be.Y) {
+					return false
+				}
+				id, ok := ast.Unparen(be.X).(*ast.Ident)
+				if !ok || !holders[pk.TypesInfo.Uses[id]] {
+					return false
+				}
+				return (be.Op == token.EQL && trueEdge) || (be.Op == token.NEQ && !trueEdge)
+			}, func(n ast.Node) bool {
+				as, ok := n.(*ast.AssignStmt)
+				if !ok {
+					return false
+				}
+				for _, l := range as.Lhs {
+					if id, ok := l.(*ast.Ident); ok && holders[pk.TypesInfo.ObjectOf(id)] {
+						return true
+					}
+				}
+				return false
+			})
+			if !noObject {
+				open = append(open, ret)
+			}
+		}
+		return true
+	})
+	if len(open) == 0 && len(gives) > 0 {
+		return 0, ""
+	}
+	// a function that only makes the object and hands it back: its callers owe the rules
+	if body == f.Decl.Body && depth < 2 && len(open) > 0 {
+		handsBack := true
+		for _, ret := range open {
+			if len(ret.Results) == 0 {
+				handsBack = false
+				continue
+			}
+			res := ast.Unparen(ret.Results[0])
+			contains := false
+			ast.Inspect(res, func(m ast.Node) bool {
+				if m == ast.Node(mk) {
+					contains = true
+				}
+				return !contains
+			})
+			if !contains && !rootHolder(res) {
+				handsBack = false
+			}
+		}
+		if sites, all := c.callersOf(f); handsBack && all && len(sites) > 0 {
+			for _, cs := range sites {
+				if v, _ := c.rulesReachObject(cs.g, cs.call, depth+1); v != 0 {
+					return v, "the function hands the schema back to " + cs.g.Name() + " at " + c.pos(cs.call.Pos()) + ", which does not add the rules on every path"
+				}
+			}
+			return 0, fmt.Sprintf(" (the function hands the schema back; each of its %d call sites adds them)", len(sites))
+		}
+	}
+	if len(gives) == 0 {
+		return 1, ""
+	}
+	var at []string
+	for _, ret := range open {
+		at = append(at, c.pos(ret.Pos()))
+	}
+	return 2, "return at " + strings.Join(at, ", ") + " is reached around the loop that adds them"
 }
 
 // emptinessGuardOf: the node that stands for "the loop over x.X ran": the ranged expression, or - when the loop is the
